@@ -110,9 +110,50 @@ def translate_function(fn):
     return t.ins
 
 
+def check_condom(bz):
+    """The model's premise: every wrapped call is bracketed by exactly one `_enter_z3()` (first thing done) and one `_exit_z3()`
+    (in a `finally`, so on every way out), and every Z3-facing method of BackendZ3 carries the wrapper.  Shape accepted:
+
+        def condom(f):
+            def z3_condom(*args, **kwargs):
+                [docstring] ; <name> = <constant> ...
+                try:  _enter_z3(); ...   finally: ...; _exit_z3()
+            return z3_condom
+    """
+    src = textwrap.dedent(inspect.getsource(bz.condom))
+    fd = ast.parse(src).body[0]
+    inner = [st for st in fd.body if isinstance(st, ast.FunctionDef)]
+    if len(inner) != 1 or not isinstance(fd.body[-1], ast.Return) or _name(fd.body[-1].value) != inner[0].name:
+        raise TranslateError("condom: expected one inner function that is returned")
+    body = list(inner[0].body)
+    while body and (isinstance(body[0], ast.Expr) and isinstance(body[0].value, ast.Constant)
+                    or isinstance(body[0], ast.Assign) and isinstance(body[0].value, ast.Constant)):
+        body.pop(0)
+    if len(body) != 1 or not isinstance(body[0], ast.Try):
+        raise TranslateError("condom: the wrapper does something other than one try statement: " + (ast.unparse(body[0])[:80] if body else "empty"))
+    tr = body[0]
+
+    def is_call0(st, name):
+        return isinstance(st, ast.Expr) and isinstance(st.value, ast.Call) and _name(st.value.func) == name and not st.value.args
+
+    if not tr.body or not is_call0(tr.body[0], "_enter_z3"):
+        raise TranslateError("condom: the try block does not start with _enter_z3()")
+    if not tr.finalbody or not is_call0(tr.finalbody[-1], "_exit_z3"):
+        raise TranslateError("condom: the finally block does not end with _exit_z3()")
+    calls = [n for n in ast.walk(inner[0]) if isinstance(n, ast.Call) and _name(n.func) in ("_enter_z3", "_exit_z3")]
+    if len(calls) != 2:
+        raise TranslateError("condom: _enter_z3/_exit_z3 called %d times in the wrapper" % len(calls))
+    for st in tr.finalbody[:-1]:
+        for n in ast.walk(st):
+            if isinstance(n, (ast.Return, ast.Raise, ast.Break, ast.Continue)):
+                raise TranslateError("condom: the finally block can leave before _exit_z3()")
+    return True
+
+
 def translate():
     """Returns dict {enter: [[op,tgt,line],...], exit: [...], file: path}"""
     import claripy.backends.backend_z3 as bz
+    check_condom(bz)
     return {"enter": translate_function(bz._enter_z3), "exit": translate_function(bz._exit_z3),
             "file": inspect.getsourcefile(bz)}
 
